@@ -110,12 +110,22 @@ PROCS = [P0, P1, P2]
 
 
 class PlainHandle(desper.Handle):
+    loads = 0
+    first = None
+
     def __init__(self, ctx, tag):
         self.ctx = ctx
         self.tag = tag
 
     def load(self):
+        # no call in this harness passes clear_current / clear_next (all are omitted, i.e. False):
+        # a handle must therefore never be loaded a second time
+        self.loads += 1
+        if self.loads > 1:
+            self.ctx.sp.fail('handle-reloaded', 'handle %s is loaded a second time although no clear flag was ever '
+                             'passed to switch() / SwitchWorld / loop.switch' % self.tag)
         w = desper.World()
+        self.first = w
         for P in PROCS[:self.ctx.n_procs]:
             w.add_processor(P(self.ctx), P.index)
         lst = QuitListener(self.ctx, self.tag)
@@ -273,6 +283,7 @@ class Ctx:
             self.cur = 1 - self.cur
             self.direct_switched = True
             sp.cover('direct-switch')
+            sp.cover('flag-omitted')
             try:
                 self.loop.switch(self.handles[self.cur])
             except Exception as ex:         # noqa
@@ -335,6 +346,7 @@ class Ctx:
             self.switched = True
             self.abandoned = True
             sp.cover('switch')
+            sp.cover('flag-omitted')
             h = self.handles[self.cur]
             if self.raw:
                 raise desper.SwitchWorld(h)
@@ -375,6 +387,10 @@ def h_loop(sp, starts=2, frames=3, n_procs=2, n_worlds=2, raw=False, direct=Fals
             except Exception as ex:         # noqa
                 outcome = ex
             sp.note('start() #%d %s' % (s, 'returned' if outcome is None else 'raised %r' % (outcome,)))
+            for hh in ctx.handles:
+                if hh.loads:
+                    sp.check(hh.cached and hh() is hh.first, 'handle-keeps-world',
+                             'start %d: handle %s lost its world although every clear flag was omitted' % (s, hh.tag))
             if ctx.stop is None:
                 sp.fail('start-ends-unasked', 'start %d ended (%r) although no processor quit or raised'
                         % (s, outcome))
@@ -434,7 +450,7 @@ HARNESSES = {
                  nontrivial=['dt-later-frame', 'restart', 'dt-across-switch', 'exception', 'on_quit-given-other'],
                  required=['dt-later-frame', 'restart-after-exception', 'restart-after-quit', 'dt-across-switch',
                            'exception', 'raw-quit', 'on_quit-current', 'on_quit-given-current',
-                           'on_quit-given-other', 'act-nonlast-proc', 'switch'],
+                           'on_quit-given-other', 'act-nonlast-proc', 'switch', 'flag-omitted'],
                  concolic=True),
     'loop-direct': dict(fn=h_loop,
                         nontrivial=['dt-later-frame', 'restart', 'dt-across-switch', 'dt-across-direct-switch',
@@ -442,30 +458,30 @@ HARNESSES = {
                         required=['dt-later-frame', 'restart-after-exception', 'restart-after-quit',
                                   'dt-across-switch', 'dt-across-direct-switch', 'direct-switch', 'exception',
                                   'raw-quit', 'on_quit-current', 'on_quit-given-current', 'on_quit-given-other',
-                                  'switch'],
+                                  'switch', 'flag-omitted'],
                         concolic=True),
     'loop-lraise': dict(fn=h_loop,
                         nontrivial=['dt-later-frame', 'restart', 'listener-raises', 'exception'],
                         required=['dt-later-frame', 'restart-after-exception', 'restart-after-quit', 'listener-raises',
                                   'exception', 'raw-quit', 'on_quit-current', 'on_quit-given-current',
-                                  'on_quit-given-other', 'on_quit-target-muted', 'switch'],
+                                  'on_quit-given-other', 'on_quit-target-muted', 'switch', 'flag-omitted'],
                         concolic=True),
     'loop-swfail': dict(fn=h_loop,
                         nontrivial=['dt-later-frame', 'restart', 'switch-fails', 'exception'],
                         required=['dt-later-frame', 'restart-after-exception', 'restart-after-quit', 'switch-fails',
                                   'switch-load-raises', 'switch-listener-raises', 'restart-after-failed-switch',
-                                  'exception', 'raw-quit', 'on_quit-current', 'switch'],
+                                  'exception', 'raw-quit', 'on_quit-current', 'switch', 'flag-omitted'],
                         concolic=True),
     'loop-1p': dict(fn=h_loop,
                     nontrivial=['dt-later-frame', 'restart', 'dt-across-switch', 'exception', 'on_quit-given-other'],
                     required=['dt-later-frame', 'restart-after-exception', 'restart-after-quit', 'dt-across-switch',
                               'exception', 'raw-quit', 'on_quit-current', 'on_quit-given-current',
-                              'on_quit-given-other', 'switch'],
+                              'on_quit-given-other', 'switch', 'flag-omitted'],
                     concolic=True),
     'loop-single': dict(fn=h_loop,
                         nontrivial=['dt-later-frame', 'dt-across-switch', 'exception', 'on_quit-given-other'],
                         required=['dt-later-frame', 'dt-across-switch', 'exception', 'raw-quit', 'on_quit-current',
-                                  'on_quit-given-current', 'on_quit-given-other', 'act-nonlast-proc', 'switch'],
+                                  'on_quit-given-current', 'on_quit-given-other', 'act-nonlast-proc', 'switch', 'flag-omitted'],
                         concolic=True),
     'loop1': dict(fn=h_loop,
                   nontrivial=['dt-later-frame', 'restart', 'exception'],
@@ -544,6 +560,9 @@ ASSUMPTIONS = [
     'listener reached before the fault is the failing one',
     'quit_loop(world) on a world whose dispatching is currently disabled (it was left through desper.switch) '
     'holds on_quit like any other event (C13): accepted, at most one delivery, none elsewhere',
+    'every switch in this harness (desper.switch, raw SwitchWorld, direct loop.switch) omits clear_current / '
+    'clear_next, which must mean False: no handle is ever loaded twice and every handle keeps its world (the clear '
+    'flags themselves are C13)',
     'desper.default_loop is pointed at the loop under test for the duration of a path (quit_loop() / switch() '
     'without a world look there) and restored afterwards',
     'the last permitted frame of every start must end in Quit / quit_loop / ValueError (bounded scripts)',
